@@ -41,6 +41,14 @@ func lconst(c common.C15Const) string {
 	return ".unknown"
 }
 
+// sameField: the Config field a value is loaded into is the one it is saved from
+func sameField(f common.C15Field) bool {
+	if f.Dest == "" || f.Src == "" {
+		return false
+	}
+	return f.Dest == f.Src || strings.HasSuffix(f.Dest, "."+f.Src) || strings.HasSuffix(f.Src, "."+f.Dest)
+}
+
 func lbool(b bool) string {
 	if b {
 		return "true"
@@ -188,8 +196,8 @@ func main() {
 			if i == len(s.Fields)-1 {
 				sep = ""
 			}
-			fmt.Fprintf(&b, "  { sec := %q, path := %q, key := %q, env := %q, ty := .%s, omitEmpty := %s, hidden := %s, load := .%s, save := .%s, dflt := %s, omitC := %s, rej := [%s] }%s\n",
-				s.Name, f.JSONPath(), f.Path[len(f.Path)-1], f.EnvName(s.EnvPrefix), f.Ty, lbool(f.OmitEmpty), lbool(f.Hidden), f.Load, f.Save, lconst(f.Default), lconst(f.OmitConst), strings.Join(rej, ", "), sep)
+			fmt.Fprintf(&b, "  { sec := %q, path := %q, key := %q, env := %q, ty := .%s, omitEmpty := %s, hidden := %s, sameField := %s, load := .%s, save := .%s, dflt := %s, omitC := %s, rej := [%s] }%s\n",
+				s.Name, f.JSONPath(), f.Path[len(f.Path)-1], f.EnvName(s.EnvPrefix), f.Ty, lbool(f.OmitEmpty), lbool(f.Hidden), lbool(sameField(f)), f.Load, f.Save, lconst(f.Default), lconst(f.OmitConst), strings.Join(rej, ", "), sep)
 		}
 		b.WriteString("]\n\n")
 	}
